@@ -30,6 +30,7 @@ GoOrder == <<"XG", "EG", "EC", "RC", "R3">>      \* crypto/tls orders its suites
 InGoOrder(S) == SelectSeq(GoOrder, LAMBDA x : x \in S)
 GoSeqs(U) == {InGoOrder(S) : S \in (SUBSET U) \ {{}}}
 RsaSuites == {"EG", "EC", "RC", "R3"}
+BaseSuites == RsaSuites \cup {"XG"}          \* the enumerated domains; CH (rule-gated) comes in through "ver"/"gver" and the samples
 
 VersPairs == {<<a, b>> \in Versions \X Versions : a <= b}
 SvMinMax == {<<a, b>> \in {0, 10, 11, 12} \X {0, 10, 11, 12} :
@@ -41,14 +42,15 @@ Basic(kinds, pairs, scsvs, eccs) ==
       k \in kinds, pr \in pairs, s \in scsvs, e \in eccs}
 ValidBasic(b) == b.kind = "go" => (~b.scsv /\ b.ecc # "none")
 
-Rule(g, np) == [on |-> TRUE, sni |-> "a", grade |-> g, np |-> np]
+Rule(g, np) == [on |-> TRUE, sni |-> "a", grade |-> g, np |-> np, clientauth |-> FALSE, chacha |-> FALSE]
+ChachaRule(g, np) == [Rule(g, np) EXCEPT !.chacha = TRUE]
 AllAlpn == OrderedSubsets(Protos, 1, 3) \cup {<<>>}
 
 \* one constant-level definition per preset (TLC evaluates each once)
 DomVer ==
     [basic |-> Basic({"go", "raw"}, VersPairs, BOOLEAN, {"ok", "none", "foreign"}),
      cgo |-> {InGoOrder(RsaSuites), <<"RC">>},
-     craw |-> {<<"EG", "EC", "RC", "R3">>, <<"R3", "EC">>},
+     craw |-> {<<"EG", "EC", "RC", "R3">>, <<"R3", "EC">>, <<"EC", "CH">>},
      alpn |-> {<<>>, <<"h2", "http/1.1">>},
      sni |-> {"a", "b"},
      svmm |-> SvMinMax,
@@ -56,12 +58,13 @@ DomVer ==
      ssuites |-> {<<>>, <<"RC", "EC", "EG">>},
      prefer |-> IF Thorough THEN BOOLEAN ELSE {TRUE},
      np |-> {<<"h2", "http/1.1">>},
-     rules |-> {NoRule, Rule("A+", <<"http/1.1">>), Rule("A", <<"http/1.1">>), Rule("B", <<"h2", "http/1.1">>)}]
-DomGVer == [DomVer EXCEPT !.cgo = {InGoOrder(RsaSuites)}, !.craw = {<<"EG", "EC", "RC", "R3">>},
+     rules |-> {NoRule, Rule("A+", <<"http/1.1">>), Rule("A", <<"http/1.1">>), Rule("B", <<"h2", "http/1.1">>),
+                ChachaRule("C", <<"h2", "http/1.1">>)}]
+DomGVer == [DomVer EXCEPT !.cgo = {InGoOrder(RsaSuites)}, !.craw = {<<"EG", "EC", "RC", "R3">>, <<"EC", "CH">>},
                          !.alpn = {<<"h2", "http/1.1">>}, !.ssuites = {<<>>}, !.prefer = {TRUE}]
 DomSuite ==
     [basic |-> Basic({"go", "raw"}, {<<10, 12>>, <<10, 11>>, <<10, 10>>}, {FALSE}, {"ok", "none", "foreign"}),
-     cgo |-> GoSeqs(AllSuites),
+     cgo |-> GoSeqs(BaseSuites),
      craw |-> OrderedSubsets(RsaSuites, 1, IF Thorough THEN 3 ELSE 2) \cup
               {<<"R3", "RC", "EC", "EG">>, <<"RC", "EG", "R3", "EC">>, <<"XG", "RC", "EG">>, <<"EC", "XG">>},
      alpn |-> {<<>>, <<"h2">>},
@@ -69,19 +72,19 @@ DomSuite ==
      svmm |-> IF Thorough THEN {<<0, 0>>, <<0, 11>>, <<11, 12>>} ELSE {<<0, 0>>},
      cert |-> {"rsa", "ecdsa"},
      ssuites |-> {<<>>, <<"R3", "RC", "EC", "EG", "XG">>, <<"EC", "RC", "EG", "R3">>} \cup
-                 OrderedSubsets(AllSuites, 1, 2) \cup (IF Thorough THEN OrderedSubsets(RsaSuites, 3, 3) ELSE {}),
+                 OrderedSubsets(BaseSuites, 1, 2) \cup (IF Thorough THEN OrderedSubsets(RsaSuites, 3, 3) ELSE {}),
      prefer |-> BOOLEAN,
      np |-> {<<"h2", "http/1.1">>},
      rules |-> {NoRule}]
 DomGSuite ==
     [DomSuite EXCEPT
        !.basic = Basic({"go", "raw"}, {<<10, 12>>, <<10, 11>>}, {FALSE}, {"ok", "none", "foreign"}),
-       !.cgo = GoSeqs(RsaSuites) \cup {<<"XG">>, <<"XG", "EG">>, <<"XG", "EC", "RC">>, InGoOrder(AllSuites)},
+       !.cgo = GoSeqs(RsaSuites) \cup {<<"XG">>, <<"XG", "EG">>, <<"XG", "EC", "RC">>, InGoOrder(BaseSuites)},
        !.craw = OrderedSubsets(RsaSuites, 1, 1) \cup
                 {<<"RC", "EC">>, <<"EC", "RC">>, <<"R3", "EG">>, <<"EG", "R3">>, <<"RC", "EG">>,
                  <<"R3", "RC", "EC", "EG">>, <<"XG", "RC", "EG">>, <<"EC", "XG">>},
        !.alpn = {<<>>}, !.svmm = {<<0, 0>>},
-       !.ssuites = {<<>>, <<"R3", "RC", "EC", "EG", "XG">>, <<"EC", "RC", "EG", "R3">>} \cup OrderedSubsets(AllSuites, 1, 1) \cup
+       !.ssuites = {<<>>, <<"R3", "RC", "EC", "EG", "XG">>, <<"EC", "RC", "EG", "R3">>} \cup OrderedSubsets(BaseSuites, 1, 1) \cup
                    {<<"RC", "EG">>, <<"EG", "RC">>, <<"R3", "EC">>, <<"XG", "EG">>}]
 DomAlpn ==
     [basic |-> Basic({"go", "raw"}, {<<10, 12>>, <<10, 11>>}, {FALSE}, {"ok"}),
